@@ -749,6 +749,15 @@ def check_bookkeeping(ctx, P, X, sv):
     ctx.ob("C14.unsubscribe", ds.short(), "only-matching-id", ok,
            "exactly the subscriptions whose id equals the argument are removed; the result tells whether any was" if ok else
            "; ".join(dict.fromkeys(why)), ds.loc)
+    # ALL of them: the identifier is the hash of the request, so two subscriptions made with an identical request share it
+    # and compare equal - collecting the matches in a set keeps one of them, and the other's callback keeps being invoked
+    # after the unsubscription was acknowledged
+    sets = [n for n in ast.walk(ds.node) if isinstance(n, (ast.Set, ast.SetComp)) or
+            (isinstance(n, ast.Call) and dotted(n.func) in ("set", "frozenset"))]
+    ctx.ob("C14.unsubscribe", ds.short(), "all-matching-removed", not sets,
+           "the matching subscriptions are collected with their multiplicity (no set)" if not sets else
+           f"the matching subscriptions are collected in a set (line {sets[0].lineno}): of two equal subscriptions (same request and callback, "
+           "same id) only one is removed, the other is still notified after the unsubscription succeeded", ds.loc)
 
 
 # ---------------------------------------------------------------- validation decision table
